@@ -529,6 +529,34 @@ def fork_maps(x):
                     src = src[:cut.start()]
                 for m in re.finditer(r"\.\s*value\s*\.\s*(?:try_)?borrow_mut\s*\(\s*\)\s*(?:\.\s*(\w+))?", src):
                     writers.append((rel, m.group(1) or "<held>"))
+    # writes THROUGH a shared `Rc`: safe Rust offers only `Rc::get_mut` (answers None while the value is shared) and
+    # `Rc::make_mut` (clones first while it is shared) — neither can change a value another `Rc` still points to — and
+    # unsafe code (`Rc::get_mut_unchecked`, raw pointers).  Listed: every such call and every file with `unsafe` outside
+    # the FFI layer (system/real*, c_string.rs) in the non-test code of the crates that can reach the shared records.
+    rc_sites, unsafe_files = [], []
+    for crate in ("yash-syntax", "yash-env", "yash-semantics", "yash-builtin", "yash-prompt", "yash-cli"):
+        base = os.path.join(x.REPO, crate, "src")
+        for root, _dirs, files in sorted(os.walk(base)):
+            for fn in sorted(files):
+                if not fn.endswith(".rs"):
+                    continue
+                rel = os.path.relpath(os.path.join(root, fn), x.REPO)
+                src = _strip_comments(x.read(rel))
+                cut = re.search(r"#\[cfg\(test\)\]\s*mod\s+tests\b", src)
+                if cut:
+                    src = src[:cut.start()]
+                for m in re.finditer(r"\bRc\s*::\s*(get_mut_unchecked|get_mut|make_mut)\s*\(", src):
+                    rc_sites.append((rel, m.group(1)))
+                ffi = "/system/real" in rel or rel.endswith("system/c_string.rs") or rel.endswith("test_helper.rs")
+                if re.search(r"\bunsafe\b", src) and not ffi:
+                    unsafe_files.append(rel)
+    rc_sites.sort()
+    unsafe_files.sort()
+    out.append("/-- every `Rc::get_mut` / `Rc::make_mut` / `Rc::get_mut_unchecked` call of the non-test code: (file, function) -/\n"
+               "def rcMutSites : List (String × String) :=\n  ["
+               + ", ".join(f"({lean_s(a)}, {lean_s(b)})" for a, b in rc_sites) + "]\n")
+    out.append("/-- every file of the non-test code outside the FFI layer (`system/real*`, `c_string.rs`) that contains `unsafe` -/\n"
+               "def unsafeFiles : List String :=\n  [" + ", ".join(lean_s(a) for a in unsafe_files) + "]\n")
     writers.sort()
     wbody = ", ".join(f"({lean_s(a)}, {lean_s(b)})" for a, b in writers)
     out.append("/-- every place of the non-test code that takes a mutable borrow of a `….value` cell (`Code.value`), with the\n"
